@@ -17,6 +17,8 @@ up front with the same threshold; counter 0 is current at the start):
 Output: one `;`-separated record per op except `i`.  After a mutator the record is
 the full dump of every reader of EVERY counter (` | `-separated; so that an effect on
 a counter that was not addressed shows); after `q<n>` it is the returned list.
+`R<c>/<t>` in a dump is get_commonality() as an exact ratio, `R-` on a counter without additions (the
+harness prints `R-` there whatever the code does: outside the statement).
 -/
 namespace C20.Driver
 open BV C20
@@ -32,7 +34,10 @@ def dump (nk : Nat) (s : TC Nat) : String :=
     s!"M{showPairs (s.mostCommon none)}",
     s!"G{showNats (ks.map s.get)}",
     s!"H{showNats (ks.map fun k => if s.contains k then 1 else 0)}",
-    s!"E{showNats s.elements}"]
+    s!"E{showNats s.elements}",
+    match s.commonality with
+    | some (c, t) => s!"R{c}/{t}"
+    | none => "R-"]
 
 def parsePairs? (s : String) : Option (List (Nat × Nat)) :=
   if s = "-" ∨ s = "" then some [] else
